@@ -15,8 +15,10 @@ pub open spec fn opened_data(bytes: Seq<u8>, unflushed: bool, d: Seq<u8>, sig1: 
 @end
 
 @mod val
+# base case of the representation invariant (mgr_ok: the size-class and free-list-head tables every update and every statistic
+# relies on), so it is part of the unit of every property stated over well-formed files
 @fn src/filedb/inner/val.rs | impl ValueFile | open_with_params
-@serves C02 C07 C12 C13
+@serves C01 C02 C05 C06 C07 C08 C09 C12 C13 C17
 @requires
 params.val_buf_size matches FileBufSizeParam::Size(v) ==> v <= 0x7fff_ffff
 @ensures
@@ -37,8 +39,10 @@ proof {
 @endmod
 
 @mod key
+# base case of the representation invariant (mgr_ok: the size-class and free-list-head tables every update and every statistic
+# relies on), so it is part of the unit of every property stated over well-formed files
 @fn src/filedb/inner/key.rs | impl<KT: DbMapKeyType> KeyFile<KT> | open_with_params
-@serves C02 C07 C12 C13
+@serves C01 C02 C05 C06 C07 C08 C09 C12 C13 C17
 @requires
 params.key_buf_size matches FileBufSizeParam::Size(v) ==> v <= 0x7fff_ffff
 @ensures
@@ -133,7 +137,7 @@ is_pow2(r as nat), r >= 8, r >= cap, r <= 0x400_0000_0000
 # "cached count == stored count" which this function establishes for an existing file
 @fn src/filedb/inner/htx.rs | impl HtxFile | open_with_params
 @opts rlimit=100
-@serves C02 C07 C12 C13 C15
+@serves C01 C02 C07 C08 C12 C13 C15
 @requires
 params.htx_buf_size matches FileBufSizeParam::Size(v) ==> v <= 0x7fff_ffff,
 params.buckets_size matches HashBucketsParam::BucketsSize(x) ==> x <= 0x100_0000_0000,
